@@ -235,6 +235,7 @@ class Printer:
         self._memo_p: dict[int, tuple[Any, dict]] = {}
         self._memo_a: dict[int, tuple[Any, tuple[str, bool]]] = {}
         self._memo_str: dict[int, tuple[Any, bool]] = {}
+        self._sig_defaults: dict[str, ast.expr] = {}
 
     def stringish(self, n) -> bool:
         m = self._memo_str.get(id(n))
@@ -359,14 +360,25 @@ class Printer:
                 items.sort()
             return "{" + ", ".join(f"{k}: {v}" for k, v in items) + "}"
         if isinstance(n, ast.JoinedStr):
-            parts = []
+            parts: list[Any] = []
             for v in n.values:
+                lit = None
                 if isinstance(v, ast.Constant):
-                    parts.append(repr(v.value))
+                    lit = str(v.value)
+                elif isinstance(v, ast.FormattedValue) and v.format_spec is None and v.conversion == -1 and isinstance(v.value, ast.Constant) \
+                        and isinstance(v.value.value, str):
+                    lit = v.value.value
+                if lit is not None:
+                    if parts and isinstance(parts[-1], list):
+                        parts[-1][0] += lit
+                    else:
+                        parts.append([lit])
                 elif isinstance(v, ast.FormattedValue):
                     spec = self.s(v.format_spec) if v.format_spec is not None else ""
                     parts.append("{" + self.s(v.value) + ("!" + chr(v.conversion) if v.conversion != -1 else "") + ":" + spec + "}")
-            return "f(" + " ".join(parts) + ")"
+            if len(parts) == 1 and isinstance(parts[0], list):
+                return repr(parts[0][0])
+            return "f(" + " ".join(repr(p[0]) if isinstance(p, list) else p for p in parts if not (isinstance(p, list) and p[0] == "")) + ")"
         if isinstance(n, ast.IfExp):
             k, pol = self.atom(n.test)
             a, b = self.s(n.body), self.s(n.orelse)
@@ -385,11 +397,16 @@ class Printer:
             folded = _const_fold(n)
             if folded is not None:
                 return repr(folded.value)
-        f = self.s(n.func)
         fd = core.dotted(n.func)
+        if fd == "getattr" and len(n.args) == 2 and not n.keywords and isinstance(n.args[1], ast.Constant) and isinstance(n.args[1].value, str) \
+                and n.args[1].value.isidentifier():
+            return f"{self.s(n.args[0])}.{n.args[1].value}"
+        f = self.s(n.func)
         if fd in ("min", "max") and not n.keywords and len(n.args) >= 2 and not any(isinstance(a, ast.Starred) for a in n.args):
             return f"{fd}({', '.join(sorted(self.s(a) for a in n.args))})"
         names = self.signature(n)
+        dflt = self._sig_defaults
+        self._sig_defaults = {}
         args: list[str] = []
         kws: list[tuple[str, str]] = []
         for i, a in enumerate(n.args):
@@ -408,10 +425,25 @@ class Printer:
                     kws.append(("**", self.s(k.value)))
             else:
                 kws.append((k.arg, self.s(k.value)))
+        if names is not None and not any(k == "**" for k, _ in kws) and not any(a.startswith("*") for a in args):
+            given = {k for k, _ in kws}
+            for p, dv in dflt.items():          # omitted parameters take their declared default
+                if p not in given and p in names:
+                    kws.append((p, self.s(dv)))
         kws.sort()
         return f"{f}({', '.join(args + [f'{k}={v}' for k, v in kws])})"
 
     def signature(self, n: ast.Call) -> list[str] | None:
+        self._sig_defaults = {}
+        r = self._signature(n)
+        return r
+
+    def _sig_of(self, fn, skip: int) -> list[str]:
+        pos, defaults, _va, _kw, kwonly = _params(fn)
+        self._sig_defaults = {k: v for k, v in defaults.items() if isinstance(v, ast.Constant)}
+        return pos[skip:]
+
+    def _signature(self, n: ast.Call) -> list[str] | None:
         f = n.func
         d = core.dotted(f)
         if d in SIGS:
@@ -422,25 +454,25 @@ class Printer:
             if fn is None and f.id in self.ctx.classes:
                 fn = self.ctx.classes[f.id].get("__new__") or self.ctx.classes[f.id].get("__init__")
                 if fn is not None:
-                    return _params(fn)[0][1:]
+                    return self._sig_of(fn, 1)
             if fn is None and f.id == "cls" and self.cls:
                 fn = self.ctx.method(self.cls, "__new__") or self.ctx.method(self.cls, "__init__")
                 if fn is not None:
-                    return _params(fn)[0][1:]
+                    return self._sig_of(fn, 1)
         elif isinstance(f, ast.Attribute):
             base = core.un(f.value) if isinstance(f.value, (ast.Name, ast.Attribute)) else ""
             if base in ("self", "cls", "self.__class__") and self.cls:
                 fn = self.ctx.method(self.cls, f.attr)
                 if fn is not None:
                     st = any(core.dotted(dd) == "staticmethod" for dd in fn.decorator_list)
-                    return _params(fn)[0][0 if st else 1:]
+                    return self._sig_of(fn, 0 if st else 1)
             if d == "self.__class__" and self.cls:
                 fn = self.ctx.method(self.cls, "__new__") or self.ctx.method(self.cls, "__init__")
                 if fn is not None:
-                    return _params(fn)[0][1:]
+                    return self._sig_of(fn, 1)
             return None
         if fn is not None:
-            return _params(fn)[0]
+            return self._sig_of(fn, 0)
         return None
 
     # atoms of conditions -------------------------------------------------------------------------------------------
@@ -490,10 +522,11 @@ class Printer:
                 return f"{self.s(l)} is {self.s(r)}", False
             if isinstance(op, ast.Is):
                 return f"{self.s(l)} is {self.s(r)}", True
-            if isinstance(op, ast.NotIn):
-                return f"{self.s(l)} in {self.s(r)}", False
-            if isinstance(op, ast.In):
-                return f"{self.s(l)} in {self.s(r)}", True
+            if isinstance(op, (ast.In, ast.NotIn)):
+                coll = self.s(r)
+                if isinstance(r, (ast.Tuple, ast.List, ast.Set)) and r.elts and all(isinstance(x, ast.Constant) for x in r.elts):
+                    coll = "{" + ", ".join(sorted(repr(x.value) for x in r.elts)) + "}"     # membership in a literal: order and kind do not matter
+                return f"{self.s(l)} in {coll}", isinstance(op, ast.In)
         if isinstance(n, ast.Call) and core.dotted(n.func) == "bool" and len(n.args) == 1 and not n.keywords:
             return self.atom(n.args[0])
         return self.s(n), True
@@ -636,6 +669,12 @@ class Exec:
             return type(e)(self._ev(e.elt, st, fb), gens)
         if isinstance(e, ast.Call):
             return self._call(e, st, bound)
+        if isinstance(e, ast.Compare) and len(e.ops) > 1:
+            parts, left = [], e.left
+            for op, r in zip(e.ops, e.comparators):
+                parts.append(ast.Compare(left, [op], [r]))
+                left = r
+            return self._ev(ast.BoolOp(ast.And(), parts), st, bound)
         if isinstance(e, ast.IfExp):
             t, a, b = self._ev(e.test, st, bound), self._ev(e.body, st, bound), self._ev(e.orelse, st, bound)
             return _minmax(t, a, b, self.printer) or ast.IfExp(t, a, b)
@@ -646,6 +685,11 @@ class Exec:
             for v in reversed(vals[:-1]):
                 res = ast.IfExp(v, v, res) if isinstance(e.op, ast.Or) else ast.IfExp(v, res, v)
             return res
+        if isinstance(e, ast.BinOp) and isinstance(e.op, ast.Add):
+            l, r = self._ev(e.left, st, bound), self._ev(e.right, st, bound)
+            if isinstance(l, ast.Constant) and isinstance(r, ast.Constant) and isinstance(l.value, str) and isinstance(r.value, str):
+                return ast.Constant(l.value + r.value)
+            return ast.BinOp(l, e.op, r)
         # generic
         new = type(e)()
         for f, v in ast.iter_fields(e):
@@ -675,6 +719,9 @@ class Exec:
             js = _format_to_fstring(e.func.value.value, args)
             if js is not None:
                 return js
+        if fsrc == "getattr" and len(args) == 2 and not kws and isinstance(args[1], ast.Constant) and isinstance(args[1].value, str) \
+                and args[1].value.isidentifier():
+            return ast.Attribute(args[0], args[1].value, ast.Load())
         func = self._ev(e.func, st, bound) if not isinstance(e.func, ast.Name) or e.func.id in st.env else e.func
         call = ast.Call(func, args, kws)
         folded = _const_fold(call)
@@ -800,6 +847,9 @@ class Exec:
             if isinstance(s.value, (ast.Yield, ast.YieldFrom)):
                 st.effects.append(("yield", self.ev(s.value.value, st) if s.value.value is not None else None))
                 return [(st, FALL, None)]
+            outs = self._inline_stmt(s.value, st)
+            if outs is not None:
+                return [(s2, kind, None if kind == FALL else val) for s2, kind, val in outs]
             v = self.ev(s.value, st)
             if isinstance(v, ast.Constant):
                 return [(st, FALL, None)]
@@ -822,6 +872,9 @@ class Exec:
                     n.ctx = ast.Load()
             return self.assign([s.target], ast.BinOp(tgt_load, s.op, s.value), st)
         if isinstance(s, ast.Return):
+            outs = self._inline_stmt(s.value, st) if s.value is not None else None
+            if outs is not None:
+                return [(s2, RET if kind == FALL else kind, val) for s2, kind, val in outs]
             return [(st, RET, self.ev(s.value, st) if s.value is not None else None)]
         if isinstance(s, ast.Raise):
             return [(st, RAISE, self.ev(s.exc, st) if s.exc is not None else None)]
@@ -849,10 +902,67 @@ class Exec:
         raise Giveup(f"statement {type(s).__name__}")
 
     def assign(self, targets, value, st: State):
+        outs = self._inline_stmt(value, st)
+        if outs is not None:
+            res = []
+            for s2, kind, val in outs:
+                if kind == FALL:
+                    for t in targets:
+                        self.bind(t, val if val is not None else ast.Constant(None), s2)
+                    res.append((s2, FALL, None))
+                else:
+                    res.append((s2, kind, val))
+            return res
         v = self.ev(value, st)
         for t in targets:
             self.bind(t, v, st)
         return [(st, FALL, None)]
+
+    def _inline_stmt(self, value, st: State):
+        """`x = helper(...)`, `return helper(...)`, `helper(...)` where the private helper has effects (a loop, stores,
+        calls made for their effect): its body is executed in place.  -> [(state, FALL | RAISE, value)] or None"""
+        value = core.strip_casts(_c(value)) if isinstance(value, ast.AST) else value
+        if not isinstance(value, ast.Call) or self.depth >= MAX_DEPTH:
+            return None
+        helper = self._resolve_helper(value.func, st)
+        if helper is None:
+            return None
+        fn, drop_first, key = helper
+        if key in self.stack or isinstance(fn, ast.Lambda) or not _impure(fn):
+            return None
+        pos, defaults, vararg, kwarg, kwonly = _params(fn)
+        if drop_first:
+            pos = pos[1:]
+        pos = pos + kwonly
+        if vararg or kwarg or any(isinstance(a, ast.Starred) for a in value.args) or any(k.arg is None for k in value.keywords) or len(value.args) > len(pos):
+            return None
+        env: dict[str, ast.expr] = {}
+        for p, a in zip(pos, value.args):
+            env[p] = self.ev(a, st)
+        for k in value.keywords:
+            if k.arg not in pos or k.arg in env:
+                return None
+            env[k.arg] = self.ev(k.value, st)
+        for p in pos:
+            if p not in env:
+                if p not in defaults:
+                    return None
+                env[p] = _c(defaults[p])
+        sub = Exec(self.ctx, self.cls, self.depth + 1, self.stack + (key,), self.loop_counter)
+        sub.local_defs = dict(self.local_defs)
+        sub.budget = self.budget
+        outer_env = st.env
+        st2 = State(env={**outer_env, **env} if key in self.local_defs else env, stores=st.stores, effects=st.effects, conds=st.conds)
+        res = []
+        for s2, kind, val in sub.block(list(fn.body), st2):
+            back = State(dict(outer_env), s2.stores, s2.effects, s2.conds)
+            if kind in (RET, FALL):
+                res.append((back, FALL, val))
+            elif kind == RAISE:
+                res.append((back, RAISE, val))
+            else:
+                return None
+        return res
 
     def bind(self, t, v, st: State) -> None:
         if isinstance(t, ast.Name):
@@ -1377,6 +1487,25 @@ def _same(a, b) -> bool:
     if _size(a) > 300:
         return False            # large values: identity only (a merge then keeps both, which is merely less compact)
     return _dump(a) == _dump(b)
+
+
+_IMPURE: dict[int, bool] = {}
+
+
+def _impure(fn) -> bool:
+    """syntactic: the helper has a loop, a store through an attribute / subscript, a yield or a statement evaluated for its effect"""
+    r = _IMPURE.get(id(fn))
+    if r is None:
+        r = False
+        for n in ast.walk(fn):
+            if isinstance(n, (ast.For, ast.While, ast.Yield, ast.YieldFrom, ast.With, ast.Try)):
+                r = True
+            elif isinstance(n, (ast.Attribute, ast.Subscript)) and isinstance(n.ctx, ast.Store):
+                r = True
+            elif isinstance(n, ast.Expr) and not isinstance(n.value, ast.Constant):
+                r = True
+        _IMPURE[id(fn)] = r
+    return r
 
 
 def _size(n) -> int:
